@@ -171,78 +171,51 @@ theorem accepted_or_rejected (r : Request) (cfg : Cfg) (hseg : 0 < cfg.segmentSi
 
 /-! ## tier2: ValidateTier2Request and the first steps of processRange
 
-`ProcessRangeRequest.Validate` does not check `stage` against the number of stages of the graph, and
-`processRange` indexes the stages with it (`execGraph.UsedModulesUpToStage(int(request.Stage))`) right
-after `NewOutputModuleGraph`.  On the tree as it is, a tier2 request with a stage number beyond the
-last stage panics with "index out of range" (replayed on the real code by the harness, class
-`C17/panic/tier2-upto/index-out-of-range`).  The model keeps the panic; the theorems say that it is the
-only one. -/
+`ProcessRangeRequest.Validate` does not check `stage` against the number of stages of the graph;
+`processRange` used to index the stages with it (`execGraph.UsedModulesUpToStage(int(request.Stage))`)
+right after `NewOutputModuleGraph` and panicked with "index out of range" for a stage beyond the last
+one (found by this check, class `C17/panic/tier2-processRange/index-out-of-range`, fixed by 84ed6b1e:
+the stage is now checked first).  The model is the model of the repaired code. -/
 
-/-- the tier2 path never hangs -/
-theorem tier2_no_hang (r : T2Request) : pipelineTier2 r ≠ .hang := by
+/-- the stage check and the indexing that follows it: never a panic, whatever the stage number -/
+theorem stage_check_guards_indexing (eg : ExecGraph) (stage : Nat) :
+    ((checkStage eg stage).bind fun _ => usedModulesUpToStage eg stage) ≠ .panic ∧
+    ((checkStage eg stage).bind fun _ => usedModulesUpToStage eg stage) ≠ .hang := by
+  unfold checkStage usedModulesUpToStage
+  by_cases h : eg.stages.length ≤ stage
+  · simp [h]
+  · have h' : stage < eg.stages.length := by omega
+    simp [h, h']
+
+/-- **tier2: no crash, no hang**, for every wire-level internal request, whatever its stage number. -/
+theorem tier2_total (r : T2Request) : Good (pipelineTier2 r) := by
   unfold pipelineTier2 pipelineTier2Staged
   obtain ⟨hv, hvok⟩ := validateTier2Request_spec r
   cases h1 : validateTier2Request r with
   | error => simp
-  | panic => simp
+  | panic => rw [h1] at hv; simp at hv
   | hang => rw [h1] at hv; simp at hv
   | ok ms =>
     simp only
     obtain ⟨hg, _⟩ := computeGraph_spec (hvok ms h1) r.outputModule true r.firstStreamable
     cases h2 : computeGraph r.outputModule true ms r.firstStreamable with
     | error => simp
-    | panic => simp
+    | panic => rw [h2] at hg; simp at hg
     | hang => rw [h2] at hg; simp at hg
     | ok eg =>
       simp only
-      by_cases hs : r.stage < eg.stages.length <;> simp [usedModulesUpToStage, hs]
+      have hs := stage_check_guards_indexing eg r.stage
+      cases h3 : (checkStage eg r.stage).bind fun _ => usedModulesUpToStage eg r.stage with
+      | error => simp
+      | panic => exact absurd h3 hs.1
+      | hang => exact absurd h3 hs.2
+      | ok l => simp
 
-/-- **Exactly which tier2 requests panic**: those that pass validation and graph construction and name
-a stage that the graph does not have. -/
-theorem tier2_panics_exactly_when (r : T2Request) :
-    pipelineTier2 r = .panic ↔
-      ∃ ms eg, validateTier2Request r = .ok ms ∧
-        computeGraph r.outputModule true ms r.firstStreamable = .ok eg ∧ eg.stages.length ≤ r.stage := by
-  unfold pipelineTier2 pipelineTier2Staged
-  obtain ⟨hv, hvok⟩ := validateTier2Request_spec r
-  cases h1 : validateTier2Request r with
-  | error => simp
-  | panic => rw [h1] at hv; simp at hv
-  | hang => simp
-  | ok ms =>
-    simp only
-    obtain ⟨hg, _⟩ := computeGraph_spec (hvok ms h1) r.outputModule true r.firstStreamable
-    cases h2 : computeGraph r.outputModule true ms r.firstStreamable with
-    | error => simp [h2]
-    | panic => rw [h2] at hg; simp at hg
-    | hang => simp [h2]
-    | ok eg =>
-      simp only
-      unfold usedModulesUpToStage
-      by_cases hs : r.stage < eg.stages.length
-      · simp only [hs, if_true]
-        constructor
-        · intro h; cases h
-        · rintro ⟨ms', eg', hm, he, hle⟩
-          injection hm with hm; subst hm
-          rw [h2] at he; injection he with he; subst he
-          omega
-      · simp only [hs, if_false]
-        constructor
-        · intro _; exact ⟨ms, eg, rfl, h2, by omega⟩
-        · intro _; trivial
+theorem tier2_no_panic (r : T2Request) : pipelineTier2 r ≠ .panic :=
+  ((good_iff _).1 (tier2_total r)).1
 
-/-- Full statement wanted: `∀ r, pipelineTier2 r ≠ .panic`.  It is false on the tree as it is (see the
-example below); what holds is: a request whose stage number is a stage of its graph does not panic.
-Missing: a check of `request.Stage` in `processRange` (or `ValidateTier2Request`). -/
-theorem tier2_no_panic_partial (r : T2Request)
-    (hstage : ∀ ms eg, validateTier2Request r = .ok ms →
-      computeGraph r.outputModule true ms r.firstStreamable = .ok eg → r.stage < eg.stages.length) :
-    pipelineTier2 r ≠ .panic := by
-  intro h
-  obtain ⟨ms, eg, h1, h2, h3⟩ := (tier2_panics_exactly_when r).1 h
-  have := hstage ms eg h1 h2
-  omega
+theorem tier2_no_hang (r : T2Request) : pipelineTier2 r ≠ .hang :=
+  ((good_iff _).1 (tier2_total r)).2
 
 /-! ## Bounded allocation -/
 
@@ -395,16 +368,21 @@ example : (computeStages [⟨nC, some .map, 0, [some (.source nT)], 0, none⟩,
 excludes it). -/
 example : (computeStages [⟨nC, some .map, 0, [some (.map nA)], 0, none⟩] []).isHang = true := by decide
 
-/-- The tier2 witness: one map module reading the block source, stage 1 (the graph has the single
-stage 0): validation and graph construction accept it, `UsedModulesUpToStage(1)` indexes past the end. -/
+/-- The former tier2 witness: one map module reading the block source, stage 1 (the graph has the
+single stage 0).  Validation and graph construction accept it; it is now rejected with an error at the
+stage check … -/
 example : (pipelineTier2Staged ⟨some ⟨[⟨nA, some .map, 0, [some (.source nT)], 0, none⟩], [⟨typeRustV1, 0⟩]⟩,
       nA, nT, 1, 10, 0, 0, 0, true, true, true⟩).1 = .upto ∧
     (pipelineTier2 ⟨some ⟨[⟨nA, some .map, 0, [some (.source nT)], 0, none⟩], [⟨typeRustV1, 0⟩]⟩,
-      nA, nT, 1, 10, 0, 0, 0, true, true, true⟩).isPanic = true := by decide
+      nA, nT, 1, 10, 0, 0, 0, true, true, true⟩).isError = true := by decide
 
-/-- … and with stage 0 the same request is accepted. -/
+/-- … with stage 0 the same request is accepted … -/
 example : (pipelineTier2 ⟨some ⟨[⟨nA, some .map, 0, [some (.source nT)], 0, none⟩], [⟨typeRustV1, 0⟩]⟩,
       nA, nT, 0, 10, 0, 0, 0, true, true, true⟩).isOk = true := by decide
+
+/-- … and the indexing itself still panics when it is not guarded (what the code did before 84ed6b1e). -/
+example : (usedModulesUpToStage ⟨[], [[[⟨nA, some .map, 0, [], 0, none⟩]]], 0, none,
+    ⟨nA, some .map, 0, [], 0, none⟩, []⟩ 1).isPanic = true := by decide
 
 end Examples
 
